@@ -28,6 +28,7 @@ import (
 	"strconv"
 	"strings"
 	"sync"
+	"time"
 	"unsafe"
 
 	"github.com/piotrnar/gocoin/lib/others/memory"
@@ -187,6 +188,7 @@ type diff struct {
 	pageID map[uintptr]int // real page base / private pointer -> model id
 	tr     *Trace
 	rp     interface{} // replay document when not a trace
+	dumpLen map[int]int // size of the last state dump per class (large states are compared less often)
 	step   int
 	failed bool
 	nlive  int
@@ -433,6 +435,10 @@ func (d *diff) checkClass(c int) {
 	if d.failed {
 		return
 	}
+	if d.dumpLen == nil {
+		d.dumpLen = map[int]int{}
+	}
+	d.dumpLen[c] = len(got)
 	want := o.MustAsk(fmt.Sprintf("cls %d", c))
 	if got != want {
 		d.tie("class-state", fmt.Sprintf("class %d state differs:\n real  %s\n model %s", c, clip(got), clip(want)))
@@ -731,6 +737,10 @@ func bucket(n int) string {
 // every that many steps (1 = always).
 func runTrace(tr *Trace, every int) {
 	announce(tr)
+	if os.Getenv("C20_TIMING") != "" {
+		t0 := time.Now()
+		defer func() { fmt.Fprintf(os.Stderr, "TIMING %-32s ops=%-7d %v\n", tr.Name, len(tr.Ops), time.Since(t0)) }()
+	}
 	defer func() {
 		if x := recover(); x != nil {
 			r.PropFail("panic", fmt.Sprintf("trace %q: allocator panicked / faulted: %v", tr.Name, x), tr)
@@ -776,7 +786,7 @@ func runTrace(tr *Trace, every int) {
 		}
 		if !d.failed && (every <= 1 || i%every == 0 || i == len(tr.Ops)-1) {
 			d.checkCounters()
-			if every <= 1 && cl >= 0 {
+			if every <= 1 && cl >= 0 && (d.dumpLen[cl] < 3000 || i%32 == 0) {
 				d.checkClass(cl)
 			}
 		}
@@ -1411,8 +1421,9 @@ func main() {
 		runTrace(tr, 1)
 	}
 
+	only := os.Getenv("C20_ONLY") // profiling aid: run one stream only
 	// 2. mixed traces over all classes
-	for i := 0; i < r.N(12, 150); i++ {
+	for i := 0; i < r.N(12, 60) && (only == "" || only == "mixed"); i++ {
 		tr := genMixed(g, fmt.Sprintf("mixed#%d", i), r.N(600, 4000), bs)
 		runTrace(tr, 1)
 		if i == 0 {
@@ -1420,7 +1431,7 @@ func main() {
 		}
 	}
 	// 3. single-class traces (free-list reuse, page fill)
-	for i := 0; i < r.N(10, 100); i++ {
+	for i := 0; i < r.N(10, 50) && (only == "" || only == "class"); i++ {
 		c := g.Intn(len(slots))
 		if i%3 == 0 {
 			c = len(slots) - 1 - g.Intn(12) // few slots per page: page boundaries reached quickly
@@ -1429,8 +1440,8 @@ func main() {
 		runTrace(tr, 1)
 	}
 	// 4. defragmentation scenarios at chosen fragmentation levels
-	nd := r.N(14, 120)
-	for i := 0; i < nd; i++ {
+	nd := r.N(16, 60)
+	for i := 0; i < nd && (only == "" || only == "defrag"); i++ {
 		// quick: classes with ≤ ~130 slots per page; thorough: also small-slot classes
 		c := len(slots) - 1 - g.Intn(11)
 		if r.Thorough() && i%4 == 0 {
@@ -1444,7 +1455,7 @@ func main() {
 			r.Sample(map[string]interface{}{"trace": tr.Name, "ops": len(tr.Ops), "pattern": "uniform random frees, then DefragAllImproved, aftermath, second pass"})
 		}
 	}
-	if r.Thorough() {
+	if r.Thorough() && (only == "" || only == "big") {
 		// the smallest class: 10922 slots per page, > 140k allocations
 		tr := genDefrag(g, "defrag-p0-class0", 0, 15, 0)
 		runTrace(tr, 5003)
@@ -1454,7 +1465,7 @@ func main() {
 
 	// 5. concurrent stream: 2..16 goroutines
 	for _, w := range []int{2, 3, 4, 8, 16} {
-		for k := 0; k < r.N(1, 6); k++ {
+		for k := 0; k < r.N(1, 6) && (only == "" || only == "conc"); k++ {
 			hint := len(slots) - 1 - g.Intn(10)
 			runConcurrent(fmt.Sprintf("conc-w%d-%d", w, k), g, w, 4, r.N(400, 2500), bs, hint)
 		}
